@@ -297,7 +297,7 @@ type tmplAlphabet struct {
 }
 
 var fullAlphabet = tmplAlphabet{
-	Mid:   []string{"a", "bb", "v1", "*", "{$}", "{$=*}", "{$=a/*}", "{n.s}", "{i}"},
+	Mid:   []string{"a", "bb", "v1", "*", "{$}", "{$=*}", "{$=a/*}", "{n.s}", "{i}", "{small}"},
 	Last:  []string{"**", "{$=**}", "{$=a/**}"},
 	Verbs: []string{"", "vb", "a"},
 }
@@ -421,6 +421,13 @@ func probesFor(ts []tmpl.T, fills []string, deep int, nearMiss bool) []string {
 				add("/" + strings.Join(segs[:k], "/") + ":" + strings.Join(segs[k:], "/") + verb)
 			}
 			for k := 0; k < len(segs); k++ {
+				if up := strings.ToUpper(segs[k]); up != segs[k] {
+					cp := append([]string{}, segs...)
+					cp[k] = up
+					add("/" + strings.Join(cp, "/") + verb)
+				}
+			}
+			for k := 0; k < len(segs); k++ {
 				cp := append([]string{}, segs...)
 				cp[k] = cp[k] + ":x"
 				add("/" + strings.Join(cp, "/") + verb)
@@ -428,6 +435,18 @@ func probesFor(ts []tmpl.T, fills []string, deep int, nearMiss bool) []string {
 				add("/" + strings.Join(cp, "/") + verb)
 			}
 		})
+	}
+	// typed variables: integers outside the field's range but inside 64 bits, and beyond 64 bits
+	for _, t := range ts {
+		typed := false
+		for _, v := range t.Vars() {
+			if v == "i" || v == "small" {
+				typed = true
+			}
+		}
+		if typed && nearMiss {
+			t.Instantiate([]string{"4294967338", "-2147483649", "9223372036854775808"}, 1, func(p string, _ tmpl.Capture) { add(p) })
+		}
 	}
 	if nearMiss {
 		uni := []string{"a", "bb", "v1", "x", "7", "é"}
